@@ -15,8 +15,6 @@ type vCtx struct {
 	Sk     *rlwe.SecretKey
 	Dec    *rlwe.Decryptor
 	Eval   *Evaluator
-	
-	
 }
 
 // tiny primes for the engine, realistic ones natively (same shape: 3 Q primes, 1 P prime)
@@ -35,6 +33,15 @@ func VerifSetup_Ctx(algebraic bool) *vCtx {
 	c.Dec = NewDecryptor(params, c.Sk)
 	c.Eval = NewEvaluator(params, nil)
 	return c
+}
+
+func vSetup() (*vCtx, *Evaluator) {
+	vConfig("algebraic-samplers", "1")
+	c := VerifSetup_Ctx(vIsAlgebraic())
+	c.Kgen.GenSecretKey(c.Sk)
+	rlk := c.Kgen.GenRelinearizationKeyNew(c.Sk)
+	eval := c.Eval.WithKey(rlwe.NewMemEvaluationKeySet(rlk))
+	return c, eval
 }
 
 func vLimbName(name string, k int) string { return name + "." + string(rune('0'+k)) }
@@ -113,4 +120,3 @@ func vItoa(n int) string {
 	}
 	return s
 }
-
